@@ -217,7 +217,8 @@ CliSplit(o, a) ==
        IF R.err THEN Fail(o) ELSE Res(FALSE, o, [k \in 1..Len(R.new) |-> CliObj(R.new[k], o)], NoRet, TRUE)
 \* commands that print numbers (tables of counts, majority characters, ...): nothing is read back, the printed values
 \* are the return record of the query
-CliQueryOps == {"CharStats", "CharStatsSeq", "CountProfile", "ProfileOnly", "MaxCharStats", "AvgAllelesPerSite"}
+CliQueryOps == {"CharStats", "CharStatsSeq", "CountProfile", "ProfileOnly", "MaxCharStats", "AvgAllelesPerSite",
+                "NumMutRef", "ListMutRef", "NumGapsUnique", "NumMutationsUnique", "CountDifferences"}
 CliOf(op, o, R) ==
   IF R.err THEN Fail(o)
   ELSE IF op \in CliQueryOps THEN Res(FALSE, o, <<>>, R.ret, R.j)
@@ -228,7 +229,7 @@ CliOps == {"RemoveGapSites", "RemoveCharacterSites", "RemoveMajorityCharacterSit
            "Deduplicate", "Compress", "Mask", "MaskOccurences", "MaskUnique", "SubAlign", "Replace",
            "ShuffleSequences", "Swap", "Recombine", "Mutate", "AddGaps", "Sample", "SampleSeqBag", "RandSubAlign",
            "Rename", "RenameRegexp", "CleanNames", "TrimNames", "TrimNamesAuto", "AppendSeqIdentifier", "TrimSequences",
-           "Unalign", "Transpose", "RefCoordinates", "Split"} \cup CliQueryOps
+           "Unalign", "Transpose", "RefCoordinates", "Split", "SelectSites", "RefSites", "InversePositions"} \cup CliQueryOps
 \* relations that need the part of the return record the command writes to a side file
 CliNeedsRet == {"Compress", "CleanNames", "TrimNames", "TrimNamesAuto"}
 
